@@ -14,7 +14,7 @@ import re
 import facts as FX
 from absint import Agg
 
-MAX_PATHS = 24
+MAX_PATHS = 40
 
 
 class Lin:
@@ -236,7 +236,10 @@ def eval_lin(F, fn, args, depth=7, budget=None, probe=None, self_ty=None):
                         elif op in ("Lt", "Le", "Gt", "Ge", "Eq", "Ne"):
                             return Cmp(op, a, c)
                     if r is None and op not in ("Lt", "Le", "Gt", "Ge", "Eq", "Ne"):
-                        r = new_atom("u")
+                        if a is not None and c is not None:
+                            r = Lin.atom("%s(%s,%s)" % (op, a.key(), c.key()))      # canonical: the same operation on the same forms is the same atom
+                        else:
+                            r = new_atom("u")
                     if wo:
                         return ("tuple", [r, Lin(0)])
                     return r
@@ -257,6 +260,8 @@ def eval_lin(F, fn, args, depth=7, budget=None, probe=None, self_ty=None):
                     v = place_val(rv[1])
                     if isinstance(v, Agg):
                         return Lin(v.idx)
+                    if isinstance(v, Lin) and len(v.t) == 1 and v.c == 0:
+                        return Lin.atom("disc(%s)" % v.key())        # discriminant of an enum read from the view: canonical atom
                     return None
                 return None
 
@@ -316,6 +321,14 @@ def eval_lin(F, fn, args, depth=7, budget=None, probe=None, self_ty=None):
                             continue
                         cs = v.conds(truth)
                         run(tg, env, refs, conds + (cs or []), seen)
+                    return
+                if isinstance(v, Lin) and len(v.t) == 1:
+                    # switch on a value read from the view: each arm knows which value it saw
+                    for a0, tg in t[2]:
+                        if b.term(tg)[0] != "unreachable":
+                            run(tg, env, refs, conds + [v.sub(Lin(a0)), Lin(a0).sub(v)], seen)
+                    if t[3] is not None and b.term(t[3])[0] != "unreachable":
+                        run(t[3], env, refs, conds + [Ne(v, [a0 for a0, _ in t[2]])], seen)
                     return
                 targets = [tg for _, tg in t[2]] + ([t[3]] if t[3] is not None else [])
                 for tg in dict.fromkeys(targets):
@@ -384,9 +397,16 @@ def eval_lin(F, fn, args, depth=7, budget=None, probe=None, self_ty=None):
                     outs = [([], Lin.atom("read[bits %d..%d]" % (vals[1].fields[0].c, vals[1].fields[1].c)))]
                 elif callee and F.has_body(callee) and is_reader(F, callee):
                     outs = [([], Lin.atom(short(callee)))]
+                elif callee and F.has_body(callee) and any(isinstance(x, Lin) and not x.is_const() and len(x.t) == 1 and i < len(F.fns[callee].get("inputs") or [])
+                                                          and not re.match(r"^(usize|u8|u16|u32|u64|bool)$", (F.fns[callee].get("inputs") or [""])[i]) for i, x in enumerate(vals)):
+                    # a function of a value read from the view (e.g. WireHostAddrType::size(view.dst_addr_type())): a property of
+                    # the bytes; one canonical atom per (function, arguments)
+                    rty0 = b.local_ty(dest[0]) if not dest[1] else ""
+                    nm = "%s(%s)" % (short(callee), ",".join(x.key() if isinstance(x, Lin) else repr(x) for x in vals))
+                    outs = [([], Lin.atom(nm))] if rty0 in ("usize", "u8", "u16", "u32", "u64") else [([], Opq(nm))]
                 elif callee and F.has_body(callee) and kk.get("rk") in ("item", None) and callee.startswith(("sciparse::", "<sciparse::")) and depth > 0:
                     sub = eval_lin(F, callee, vals, depth - 1, budget, probe, sub_self if sub_self else (self_ty if kk.get('self') == 'Self' else None))
-                    outs = [(c2, v2) for c2, v2 in sub][:6]
+                    outs = [(c2, v2) for c2, v2 in sub][:MAX_PATHS]
                     if not outs:
                         return
                 if outs is None:
@@ -416,9 +436,41 @@ def eval_lin(F, fn, args, depth=7, budget=None, probe=None, self_ty=None):
     return results
 
 
+class Ne:
+    """path condition of a switch's otherwise arm: the form is none of the listed constants"""
+    __slots__ = ("form", "values")
+
+    def __init__(self, form, values):
+        self.form, self.values = form, list(values)
+
+    def __repr__(self):
+        return "%s not in %s" % (self.form, self.values)
+
+
+def unsat(conds):
+    """the conditions contradict each other (two of them sum to a negative constant): x == 1 together with x == 2; or
+    x == k together with `x not in {.., k, ..}` from an otherwise arm"""
+    nes = [c for c in conds if isinstance(c, Ne)]
+    conds = [c for c in conds if isinstance(c, Lin)]
+    for ne in nes:
+        for k in ne.values:
+            lo, hi = ne.form.sub(Lin(k)), Lin(k).sub(ne.form)
+            if lo in conds and hi in conds:
+                return True
+    for i, a in enumerate(conds):
+        if not a.t and a.c < 0:
+            return True
+        for c in conds[i + 1:]:
+            s0 = a.add(c)
+            if not s0.t and s0.c < 0:
+                return True
+    return False
+
+
 def implied_nonneg(d, conds, rounds=3):
     """is the form d >= 0 for all non-negative atoms satisfying conds (each cond >= 0)?  Incomplete: greedy elimination
     of negative coefficients by subtracting multiples of conditions."""
+    conds = [c for c in conds if isinstance(c, Lin)]
     if d.nonneg():
         return True
     if rounds <= 0:
